@@ -214,6 +214,59 @@ class Laws(object):
         self.law('spelling-ops', (-a) == (-b) and abs(a) == abs(b) and a * 3 == b * 3 and (a + a) == (b + b)
                  and hash(-a) == hash(-b), case, 'derived values differ for %r / %r' % (a, b), kind)
 
+    def near_pair(self, kw, rng):
+        """a delta and a copy that differs in exactly one field: if the library calls them equal, they must be
+        interchangeable (same sums on the panel, same hash, same truth value)"""
+        R, W = self.R, self.W
+        base = dict(kw)
+        field = rng.choice(mon_rd.REL_FIELDS + mon_rd.ABS_FIELDS + ('weekday', 'leapdays'))
+        other = dict(base)
+        alt = {'year': [1999, 2024], 'month': [2, 11], 'day': [1, 28], 'hour': [0, 13], 'minute': [0, 59], 'second': [11, 12],
+               'microsecond': [0, 999999], 'weekday': [W(0), W(3, 2), W(6, -1)], 'leapdays': [0, 1, -1]}
+        if field in alt:
+            cands = [v for v in alt[field] if v != base.get(field)]
+            other[field] = rng.choice(cands)
+            if field in base and rng.random() < .3:
+                other.pop(field)
+                if field not in base:
+                    return
+        else:
+            cur = base.get(field, 0)
+            if isinstance(cur, float):
+                return
+            other[field] = cur + rng.choice([1, -1, 2])
+        a, b = try_(lambda: R(**base)), try_(lambda: R(**other))
+        if a[0] == 'exc' or b[0] == 'exc':
+            return
+        a, b = a[1], b[1]
+        case = {'kind': 'one-field-' + field, 'kw1': mon_rd.kw_json(base), 'kw2': mon_rd.kw_json(other)}
+        eq = (a == b)
+        self.ctx.count('near_pairs_equal' if eq else 'near_pairs_unequal')
+        self.law('near-symmetric', eq == (b == a) and eq == (not (a != b)), case, '%r vs %r' % (a, b), field)
+        if eq:
+            res = [(add_outcome(dt, a), add_outcome(dt, b)) for dt in PANEL]
+            ok = all(x[0] == y[0] and (x[0] != 'ok' or mon_rd.same_value(x[1], y[1])) for x, y in res)
+            self.law('equal-means-interchangeable', ok and hash(a) == hash(b) and bool(a) == bool(b), case,
+                     '%r == %r although they differ in %s and %s' % (a, b, field,
+                                                                     'give different sums' if not ok else 'hash / truth value differ'), field)
+
+    def mutated(self, kw, rng):
+        """the weeks property writes through to days: equality / hash must follow the new value"""
+        R = self.R
+        if is_float(kw):
+            return
+        d = R(**kw)
+        h0 = hash(d)
+        w = rng.randint(-3, 3)
+        d.weeks = w
+        rebuilt = try_(lambda: R(**fields_of(d)))
+        case = {'kind': 'weeks-assigned', 'kw1': mon_rd.kw_json(kw), 'weeks': w}
+        if rebuilt[0] == 'exc':
+            return
+        r = rebuilt[1]
+        self.law('weeks-setter-consistent', (d == r) and hash(d) == hash(r) and len({d, r}) == 1, case,
+                 'after d.weeks = %d: d = %r (hash %r), rebuilt from its fields %r (hash %r), hash before %r' % (w, d, hash(d), r, hash(r), h0), 'weeks')
+
     def triple(self, kws):
         R = self.R
         x, y, z = [R(**k) for k in kws]
@@ -281,6 +334,9 @@ def run(ctx):
             laws.equal_pair(kind, kws[0], kws[1])
             laws.equal_pair(kind, kws[1], kws[2])
             laws.triple(kws)
+            laws.near_pair(gen_kw(rng, W, floats=False), rng)
+            laws.near_pair(gen_kw(rng, W, floats=False), rng)
+            laws.mutated(gen_kw(rng, W, floats=False), rng)
             ctx.count('rounds')
         # binary operations between unrelated deltas: results must be in normal form (hook) and consistent
         for i in range(N_CASES[ctx.tier] // 4):
